@@ -7,8 +7,8 @@
    schemas, implied/direct origins) is not modelled; it is decided on the implementation against
    generator ground truth.  "Exactly one" is proved as soundness + completeness on the fragment
    without for expressions; absence of duplicates is decided by the ground-truth oracle. *)
-From Coq Require Import String List ZArith Bool Permutation.
-From HV Require Import Base.Sexp Base.Pos Model.Addr Model.Schema Model.Ref Model.Collect Model.Origins Proofs.CollectProofs Proofs.OriginsProofs.
+From Coq Require Import String List ZArith Bool Permutation Sorted.
+From HV Require Import Base.Sexp Base.Pos Model.Addr Model.Schema Model.Ref Model.Collect Model.Ast Model.Origins Model.OriginsBody Proofs.CollectProofs Proofs.OriginsProofs Proofs.OriginsBodyProofs.
 Import ListNotations.
 
 (* self.* references yield an origin only where the body enables them *)
@@ -72,3 +72,32 @@ Theorem C10_every_written_reference_yields_an_origin : forall conv allow_self fu
   has_origin allow_self (any_origins conv allow_self funcs t e) tr.
 Proof. exact any_origins_complete. Qed.
 Print Assumptions C10_every_written_reference_yields_an_origin.
+
+(* ---- CollectReferenceOrigins (Model/OriginsBody.v) ---- *)
+(* attributes and blocks unknown to the schema yield nothing *)
+Theorem C10_unknown_items_yield_nothing : forall conv funcs exprs bs attrs blocks r e,
+  Forall (fun a => attr_schema_for bs (a_name a) = None) attrs ->
+  Forall (fun k => alookup (k_type k) (bs_blocks bs) = None) blocks ->
+  fst (body_origins conv funcs exprs bs (Body attrs blocks r e)) = [].
+Proof. exact unknown_items_yield_nothing. Qed.
+Print Assumptions C10_unknown_items_yield_nothing.
+
+(* what a schema-known attribute yields: references written in its value (under the body's self.*
+   setting), its declared path origin on the name, path origins on literal object keys, the direct
+   origin of a dependency key on the value *)
+Theorem C10_attribute_origins : forall conv funcs exprs bs a o,
+  In o (attr_origins_in conv funcs exprs bs a) ->
+  match o with
+  | OLocal _ _ _ => exists s e, attr_schema_for bs (a_name a) = Some s /\ lookup_expr exprs (a_rng a) = Some e /\
+                                exists tr, In tr (written e) /\ from_trav (ext_has ext_self_refs (bs_ext bs)) o tr
+  | OPath r _ _ _ => r = a_name_rng a \/ exists e, lookup_expr exprs (a_rng a) = Some e /\ In r (raw_keys e)
+  | ODirect r _ _ => r = expr_range (a_expr a)
+  end.
+Proof. exact attribute_origins_written. Qed.
+Print Assumptions C10_attribute_origins.
+
+(* the collected list is ordered by file and position *)
+Theorem C10_collected_origins_ordered : forall conv funcs exprs root files,
+  StronglySorted (fun a b => origin_ltb b a = false) (collect_origins conv funcs exprs root files).
+Proof. exact collect_origins_sorted. Qed.
+Print Assumptions C10_collected_origins_ordered.
